@@ -50,11 +50,12 @@ class H:
 
 
 class Label:
-    __slots__ = ('id', 'h', 'frame', 'reach', 'boundary', 'pos', 'name', 'bound_live')
+    __slots__ = ('id', 'h', 'frame', 'reach', 'boundary', 'pos', 'name', 'bound_live', 'stale')
 
     def __init__(self, id, h, frame, reach, boundary, pos, name=None):
         self.id, self.h, self.frame, self.reach, self.boundary, self.pos, self.name = id, h, frame, reach, boundary, pos, name
         self.bound_live = False
+        self.stale = False
 
 
 class LoopCtx:
